@@ -68,6 +68,7 @@ def abi(tstr, records=None):
 
 
 LAYOUTS = {"f": {}, "c": {}}
+CALLBACKS = {}  # (C function name, parameter name) -> (result class, [parameter classes], type text) of a function-pointer parameter
 
 
 def struct_compat(fname, cname, depth=0):
@@ -205,6 +206,11 @@ def clang_view(files, cwd, incs=()):
                     if ch.get("kind") == "ParmVarDecl":
                         ty = ch["type"]
                         ps.append(abi(ty.get("desugaredQualType") or ty["qualType"]))
+                        fm = re.match(r"^(.*?)\(\*\)\((.*)\)$", ty.get("desugaredQualType") or ty["qualType"])
+                        if fm and ch.get("name"):
+                            # a callback: result and parameter classes of the pointed-to function type
+                            fparams = [abi(x) for x in split_params(fm.group(2)) if x not in ("void", "")]
+                            CALLBACKS.setdefault((node["name"], ch["name"].lower()), (abi(fm.group(1).strip()), fparams, ty["qualType"]))
                 funcs.setdefault(node["name"], (abi(ret), ps, "%s %s" % (node["name"], qt)))
             elif k in ("RecordDecl", "CXXRecordDecl") and node.get("completeDefinition") and node.get("name"):
                 fields = []
@@ -362,6 +368,7 @@ def compare_dir(out, lang, user_headers, user_incs, label):
     files += [(f, lang) for f in sorted(os.listdir(out)) if f.startswith("util") and f.endswith((".c", ".cpp"))]
     files += [(h, lang) for h in user_headers]
     probs += cfi_attribute_problems(out, label)
+    CALLBACKS.clear()
     cfuncs, cstructs = clang_view(files, out, user_incs)
     LAYOUTS["c"] = cstructs
     LAYOUTS["f"] = {}
@@ -387,7 +394,26 @@ def compare_dir(out, lang, user_headers, user_incs, label):
             continue
         for name, variants in sorted(protos.items()):
             if name.lower() in abstract:
-                continue  # the interface of a callback argument, not a C function
+                # the interface of a callback argument, not a C function: it must describe the function type the C side calls.
+                # Shroud names it <function>_<argument>; the C functions with a function-pointer parameter of that name decide
+                cands = [(fn_, v) for (fn_, pn_), v in CALLBACKS.items()
+                         if name.lower().endswith("_" + pn_) and fn_.lower().replace("_", "").endswith(name.lower()[: -len(pn_) - 1].replace("_", ""))]
+                for fret, fparams, ftext in variants:
+                    for fn_, (cret, cparams, ctext) in cands:
+                        nif += 1
+                        bad = None
+                        if len(fparams) != len(cparams):
+                            bad = "the abstract interface has %d arguments, the function type has %d" % (len(fparams), len(cparams))
+                        else:
+                            for i, ((fp, pname), cp) in enumerate(zip(fparams, cparams)):
+                                if not compatible(fp, cp):
+                                    bad = "argument %d: the Fortran procedure takes %s, C passes %s" % (i + 1, fp, cp)
+                                    break
+                            if bad is None and not (compatible(fret, cret) or (fret[0] == "void" and cret[0] == "void") or (fret[0] == "ptr" and cret[0] == "ptr")):
+                                bad = "result: the Fortran procedure returns %s, C expects %s" % (fret, cret)
+                        if bad:
+                            probs.append(("callback %s" % name, "%s: abstract interface %s (callback of %s): %s   [Fortran: %s | C: %s]" % (label, name, fn_, bad, ftext, ctext)))
+                continue
             for fret, fparams, ftext in variants:
                 nif += 1
                 if name not in cfuncs:
@@ -569,6 +595,26 @@ def stmt_libs():
             ry["language"] = "c"
         rhdr = "#include <stddef.h>\n" + ("#include <stdbool.h>\n" if lang == "c" else "") + recd + "\ntypedef struct Rec Rec;\nint use(Rec *r);\nRec make(int n);\n"
         out.append(("struct member types (%s)" % lang, lang, ry, hname, rhdr))
+    # callbacks: the abstract interface of a function-pointer argument describes the pointed-to function type - its own result
+    # type (every native kind, none of them the enclosing function's) and its own parameters
+    rtypes = ["void", "int", "long", "double", "float", "bool", "short", "long long", "size_t", "unsigned int"]
+    for lang in ("c", "cxx"):
+        hname = "cbk.h" if lang == "c" else "cbk.hpp"
+        for i, rt in enumerate(rtypes):
+            # one library per result type: a module gfortran rejects for one of them must not hide the others
+            decls, hdr = [], ["#include <stddef.h>"] + (["#include <stdbool.h>"] if lang == "c" else [])
+            # the function that takes the callback returns another type, one whose kind the callback's own parameters bring along
+            outer = "double" if rt in ("int", "void") else "int"
+            d = "%s take%d(%s (*fn)(int k, double x), int n)" % (outer, i, rt)
+            decls.append({"decl": d})
+            hdr.append(d + ";")
+            d2 = "%s visit%d(%s (*each)(%s *v, long n))" % (rtypes[(i + 5) % len(rtypes)] if rtypes[(i + 5) % len(rtypes)] != "void" else "int", i, rt, "double" if rt == "void" else rt)
+            decls.append({"decl": d2.replace("*v,", "*v +rank(1),")})
+            hdr.append(d2 + ";")
+            cy = {"library": "cbk", "cxx_header": hname, "options": {"wrap_python": False, "wrap_lua": False}, "declarations": decls}
+            if lang == "c":
+                cy["language"] = "c"
+            out.append(("callback returning %s (%s)" % (rt, lang), lang, cy, hname, "\n".join(hdr) + "\n"))
     return out
 
 
